@@ -5,7 +5,11 @@
    `pools=` / `vaults=` entry (the hostile contract) is dropped.  `@xfail=err|panic` wraps the op into `Op.xfail`.
    `reenter <h> <t> <sender> <p<k>|v<k>|s<k>> <plain|catch> <inner op> [args] -- <outer op> [args] [+coins]` builds
    `Op.reenter` (the nested op is sent by bonder `u5` and reads its recorded answers from the `@i…` tokens, the outer
-   op's per-swap accruals from `@hacc`); its observation line ends in `fired=<0|1|2|->` as computed by `stepH`. -/
+   op's per-swap accruals from `@hacc`); its observation line ends in `fired=<0|1|2|->` as computed by `stepH`.
+   `inloan <h> <t> <sender> v<k> <amount> <exact|over<n>|short> -- <inner op> [args]` builds `Op.inloan` (the inner op is
+   sent by the borrower contract, address `BORROWER`, and reads its recorded answers from the plain `@…` tokens; `@vb` =
+   the lending vault's balance before, `@vfees=<prot>.<flash>.<burn>` = its fee shares); its observation line ends in
+   `lvb=<the lending vault's balance after>` as computed by `inloanRun`. -/
 import Driver.Util
 import WW.Model.Feeflow
 namespace Driver
@@ -21,6 +25,8 @@ def ADMIN : Nat := 1000
 def TRADER : Nat := 1001
 def STRANGER : Nat := 1002
 def DISTRIBUTOR : Nat := 2000
+/-- the flash-loan borrower contract: the sender of the message nested into an `inloan` transaction -/
+def BORROWER : Nat := 1003
 
 def addr? (s : String) : Option Nat :=
   if s == "admin" then some ADMIN
@@ -256,6 +262,12 @@ def recordedCovers (cfg : Feeflow.Cfg) (s : Feeflow.St) (op : Feeflow.Op) (rcd :
     | some (.ok _), none => false
     | none, _ => recordedCovers cfg s outer rcd
     | _, _ => true
+  | .inloan k amount mode vb fees inner =>
+    -- the callback's message runs on the state the loan was taken in; a transaction that fails as a whole has
+    -- recorded nothing
+    match Feeflow.step cfg s (.inloan k amount mode vb fees inner) with
+    | .ok _ => recordedCovers cfg s inner rcd
+    | _ => true
   | .coins payer a x op' =>
     -- the operation runs on the state after the bank's transfer
     match Feeflow.pay cfg s payer a x (Feeflow.target op') with
@@ -367,6 +379,30 @@ def parseReenter (cfg : Feeflow.Cfg) (now sender : Nat) (args0 : List String) (r
     | _, _, _, _ => none
   | _ => none
 
+/-- the repayment mode of an `inloan` line: `exact` | `short` | `over<n>` -/
+def repay? (m : String) : Option Feeflow.Repay :=
+  if m == "exact" then some .exact
+  else if m == "short" then some .short
+  else if m.startsWith "over" then (m.drop 4).toString.toNat?.map .over
+  else none
+
+/-- `inloan <h> <t> <sender> v<k> <amount> <mode> -- <inner op> <args…>`; the inner op is one of the messages anybody can
+    send to the distributor / collector / router (`newepoch claim fwd collect aggregate grace distasset colcfg addroute
+    rmroute`), carries no coins and is
+    sent by the borrower contract -/
+def parseInloan (cfg : Feeflow.Cfg) (now : Nat) (args0 : List String) (rcd : List (String × String)) : Option Feeflow.Op :=
+  match args0 with
+  | v :: amt :: mode :: "--" :: iop :: iargs =>
+    if !(v.startsWith "v") || iargs.any (·.startsWith "+") ||
+       !(["newepoch", "claim", "fwd", "collect", "aggregate", "grace", "distasset", "colcfg", "addroute", "rmroute"].contains iop) then none
+    else
+      match (v.drop 1).toString.toNat?, amt.toNat?, repay? mode, lookupNat rcd "@vb", splitNats "." (lookupStr rcd "@vfees" "?") with
+      | some k, some amount, some mode, some vb, some [fp, ff, fb] =>
+        ((parseOp cfg now BORROWER iop iargs rcd).bind (withXfail rcd "@xfail")).map fun inner =>
+          .inloan k amount mode vb { prot := fp, flash := ff, burn := fb } inner
+      | _, _, _, _, _ => none
+  | _ => none
+
 def opLine (fs : FeeflowState) (ws : List String) : FeeflowState × String :=
   match ws with
   | op :: _h :: t :: sender :: rest =>
@@ -391,6 +427,16 @@ def opLine (fs : FeeflowState) (ws : List String) : FeeflowState × String :=
             | .ok s' => ({ fs with st := s' }, "ok " ++ observe fs.cfg s' ++ " fired=" ++ fired)
             | .err => (fs, "err " ++ observe fs.cfg fs.st ++ " fired=-")
             | .panic => (fs, "panic " ++ observe fs.cfg fs.st ++ " fired=-")
+        | _ => (fs, "bad-op")
+      else if op == "inloan" then
+        match parseInloan fs.cfg now args0 rcd with
+        | some (.inloan k amount mode vb fees inner) =>
+          if !recordedCovers fs.cfg fs.st (.inloan k amount mode vb fees inner) rcd then (fs, "bad-op")
+          else
+            match Feeflow.inloanRun fs.st k amount mode vb fees (fun s0 => Feeflow.step fs.cfg s0 inner) with
+            | .ok o => ({ fs with st := o.st }, "ok " ++ observe fs.cfg o.st ++ " lvb=" ++ toString o.endBal)
+            | .err => (fs, "err " ++ observe fs.cfg fs.st ++ " lvb=" ++ toString vb)
+            | .panic => (fs, "panic " ++ observe fs.cfg fs.st ++ " lvb=" ++ toString vb)
         | _ => (fs, "bad-op")
       else
       match parsePlain fs.cfg now sender op args0 rcd with
